@@ -34,6 +34,37 @@ def vgraphOf (d : GDesc) : VGraph :=
   let rows := rowsOfArcs bound d.arcs
   ⟨vs, fun u => rows.getD u []⟩
 
+/-! Huge ids (`2^32`, `usize::MAX`, …) in an `AdjacencyMap`: rows keyed by id in an array sorted
+by id, found by binary search (`vgraphOf` would allocate `max id + 1` rows). -/
+
+def bsearch (rows : Array (Nat × List Nat)) (u : Nat) : Nat → Nat → Nat → Option Nat
+  | 0, _, _ => none
+  | fuel+1, lo, hi =>
+    if lo ≥ hi then none
+    else
+      let mid := (lo + hi) / 2
+      let k := (rows.getD mid (0, [])).1
+      if k == u then some mid
+      else if k < u then bsearch rows u fuel (mid + 1) hi
+      else bsearch rows u fuel lo mid
+
+def rankOf (rows : Array (Nat × List Nat)) (u : Nat) : Option Nat := bsearch rows u (rows.size + 1) 0 rows.size
+
+def vgraphSparse (d : GDesc) : VGraph :=
+  let vs := vertsOf d
+  let rows0 : Array (Nat × List Nat) := (vs.map (fun v => (v, ([] : List Nat)))).toArray
+  let rows := d.arcs.foldl (fun rows a =>
+    match rankOf rows a.1 with
+    | some i => rows.modify i (fun r => (r.1, Tarjan.insertAsc a.2 r.2))
+    | none => rows) rows0
+  ⟨vs, fun u => match rankOf rows u with
+    | some i => (rows.getD i (0, [])).2
+    | none => []⟩
+
+/-- The digraph the handlers work on. -/
+def graphOfDesc (d : GDesc) : VGraph :=
+  if d.repr == "am" && (vertsOf d).foldl max 0 ≥ 4096 then vgraphSparse d else vgraphOf d
+
 def resToV : Res → List V
   | .panic => [.a "panic"]
   | .fuel => [.a "model-out-of-fuel"]
@@ -41,6 +72,26 @@ def resToV : Res → List V
 
 def countTag (pre : String) (k : Nat) : String :=
   pre ++ (if k ≤ 1 then "0-1" else if k ≤ 3 then "2-3" else if k ≤ 8 then "4-8" else ">8")
+
+/-- Oracle on one returned component list. -/
+def oracle (g : VGraph) (cs : List (List Nat)) : Option String :=
+  if sccCheck g cs then none else some "not-the-partition-into-strongly-connected-components"
+
+def tagsOf (d : GDesc) (g : VGraph) (cs : List (List Nat)) : List String :=
+  let n := g.verts.length
+  let contiguous := g.verts == List.range n
+  let ncomp := cs.length
+  let largest := cs.foldl (fun m c => max m c.length) 0
+  -- an arc between two different components: when it is scanned its head is either un-indexed
+  -- or in a finished component (indexed, NOT on the stack: the branch the `on_stack` test is for)
+  let compOf (x : Nat) : Nat := (cs.findIdx? (fun c => c.contains x)).getD 0
+  let inter := d.arcs.any (fun a => compOf a.1 != compOf a.2)
+  let maxId := g.verts.foldl max 0
+  [ d.repr, if inter then "inter-scc-arcs" else "no-inter-scc-arc",
+    sizeTag n, if n > 130 then "n>130" else "n<=130",
+    if contiguous then "contiguous" else if maxId ≥ 2^32 then "huge-ids" else "sparse-ids",
+    countTag "comps=" ncomp, countTag "largest=" largest,
+    if ncomp == n then "all-singletons" else if ncomp == 1 then "one-scc" else "mixed" ]
 
 def hComponents : Handler := fun _ args obs =>
   match args with
@@ -50,12 +101,10 @@ def hComponents : Handler := fun _ args obs =>
       -- building the digraph panics before Tarjan runs; the property does not speak about it
       pure (classify obs [.a "panic"] none (nt := false) ["invalid-desc"])
     else
-      let g := vgraphOf d
+      let g := graphOfDesc d
       -- the theorems of Thm/C09 are about closed digraphs; a valid description always is
       if !(decide g.Closed) then none else
       let model := resToV (components g)
-      let n := g.verts.length
-      let contiguous := g.verts == List.range n
       let obsCs : Option (List (List Nat)) :=
         match obs with
         | [v] => V.listOf? (V.listOf? V.nat?) v
@@ -63,19 +112,53 @@ def hComponents : Handler := fun _ args obs =>
       let propFail : Option String :=
         match obsCs with
         | none => some "no-component-list (panic or malformed output)"
-        | some cs => if sccCheck g cs then none else some "not-the-partition-into-strongly-connected-components"
-      let ncomp := (obsCs.getD []).length
-      let largest := (obsCs.getD []).foldl (fun m c => max m c.length) 0
-      -- an arc between two different components: when it is scanned its head is either un-indexed
-      -- or in a finished component (indexed, NOT on the stack: the branch the `on_stack` test is for)
-      let compOf (x : Nat) : Nat := ((obsCs.getD []).findIdx? (fun c => c.contains x)).getD 0
-      let inter := d.arcs.any (fun a => compOf a.1 != compOf a.2)
-      let tags := [ d.repr, if inter then "inter-scc-arcs" else "no-inter-scc-arc", sizeTag n, if contiguous then "contiguous" else "sparse-ids",
-                    countTag "comps=" ncomp, countTag "largest=" largest,
-                    if ncomp == n then "all-singletons" else if ncomp == 1 then "one-scc" else "mixed" ]
-      pure (classify obs model propFail (nt := n ≥ 2 && !d.arcs.isEmpty) tags)
+        | some cs => oracle g cs
+      pure (classify obs model propFail (nt := g.verts.length ≥ 2 && !d.arcs.isEmpty)
+        ("single-call" :: tagsOf d g (obsCs.getD [])))
   | _ => none
 
-def handlers : List (String × Handler) := [("tarjan_components", hComponents)]
+/-- `tarjan_repeat <desc> <k>`: `components()` called `k` times on ONE `Tarjan` value; the output
+is the list of the `k` returned component lists.  The property speaks about every call. -/
+def hRepeat : Handler := fun _ args obs =>
+  match args with
+  | [desc, k] => do
+    let d ← GDesc.parse desc
+    let k ← V.nat? k
+    if k == 0 || k > 5 then none else
+    if !validDesc d then
+      pure (classify obs [.a "panic"] none (nt := false) ["invalid-desc"])
+    else
+      let g := graphOfDesc d
+      if !(decide g.Closed) then none else
+      let results := (List.range k).map (fun j => componentsAt g (j + 1))
+      let model : List V :=
+        match results.find? (fun r => match r with | .ret _ => false | _ => true) with
+        | some bad => resToV bad
+        | none => [.l (results.map (fun r => match r with | .ret cs => V.l (cs.map V.ofNats) | _ => V.a "?"))]
+      let obsAll : Option (List (List (List Nat))) :=
+        match obs with
+        | [v] => V.listOf? (V.listOf? (V.listOf? V.nat?)) v
+        | _ => none
+      let propFail : Option String :=
+        match obsAll with
+        | none => some "no-component-lists (panic or malformed output)"
+        | some css =>
+          if css.length != k then some s!"{css.length} results for {k} calls"
+          else
+            -- identical lists need one check only
+            let rec go (j : Nat) (prev : Option (List (List Nat))) : List (List (List Nat)) → Option String
+              | [] => none
+              | cs :: rest =>
+                if prev == some cs then go (j + 1) prev rest
+                else match oracle g cs with
+                  | some why => some s!"call-{j}: {why}"
+                  | none => go (j + 1) (some cs) rest
+            go 1 none css
+      let first := ((obsAll.getD []).head?).getD []
+      pure (classify obs model propFail (nt := g.verts.length ≥ 2 && !d.arcs.isEmpty)
+        (s!"calls={k}" :: tagsOf d g first))
+  | _ => none
+
+def handlers : List (String × Handler) := [("tarjan_components", hComponents), ("tarjan_repeat", hRepeat)]
 
 end GraafVerif.Driver.H09
